@@ -126,12 +126,23 @@ pub fn units(tier: Tier, _seed: u64) -> Vec<Unit> {
             u.push(unit!(format!("C04/alma-definition/sigma={s}/offset={o}/N={n}/k={kk}"), alma_def(n, kk, s, o)));
         }
     }
+    // far beyond the small windows and after more than 256 updates: these views perform no comparison of their own, so any value-dependent
+    // guard a change adds becomes a branch that is explored on both sides
+    let first = u.len();
+    for &(n, k) in &[(130usize, 134usize), (200, 204), (3, 262), (5, 263)] {
+        for m in [Ma::Sma, Ma::Alma] {
+            if matches!(m, Ma::Alma) && n > 100 { continue; }
+            u.push(unit!(format!("C04/hull/{m:?}/N={n}/k={k}"), hull(m, n, k)));
+            u.push(unit!(format!("C04/constant/{m:?}/N={n}/k={k}"), constant(m, n, k)));
+        }
+    }
+    for x in u.iter_mut().skip(first) { x.budget_s = 40.0; x.path_cap = 400; x.max_decisions = 60000; }
     u
 }
 pub fn meta() -> Meta {
     Meta {
         functions: vec!["Sma::{new,update,last}", "Ema::{new,with_alpha,update,last}", "Alma::{new,new_custom,update,last}", "Echo::{update,last}"],
-        bounds: "N in {1,2,3,4,5,7,8,13,16} (quick) / {1..10,12,13,16,20,32} (thorough) — these views do not branch on values, so every N is a single path; k = 2N+2 (3N+1 for Alma); inputs unconstrained reals (|x|<=1 for the Alma kernel obligation); a>0, b, c and the monotone increments d>=0 are solver variables; Ema alpha = 2 and symbolic alpha in [0,N+1] (N<=2 quick, N<=3 thorough); Alma (sigma,offset) in {(6,.85),(3,.5),(9,1),(1.5,.1)}; every comparison outcome explored (Ema's state==0 test is a branch)",
+        bounds: "N in {1,2,3,4,5,7,8,13,16} (quick) / {1..10,12,13,16,20,32} (thorough) — these views do not branch on values, so every N is a single path; k = 2N+2 (3N+1 for Alma); hull and constant-in/constant-out of Sma and Alma also at (N,k) in {(130,134),(200,204),(3,262),(5,263)} (Alma: the two long runs only); inputs unconstrained reals (|x|<=1 for the Alma kernel obligation); a>0, b, c and the monotone increments d>=0 are solver variables; Ema alpha = 2 and symbolic alpha in [0,N+1] (N<=2 quick, N<=3 thorough); Alma (sigma,offset) in {(6,.85),(3,.5),(9,1),(1.5,.1)}; every comparison outcome explored (Ema's state==0 test is a branch)",
         outside: vec!["N > 6, longer streams", "arbitrary real sigma/offset (four concrete pairs are checked)", "f64 rounding"],
         assumptions: vec!["Alma weights: exp() of a concrete argument is evaluated by the platform libm; the oracle computes its own weights in plain f64 and the comparison allows 1e-9"],
     }
